@@ -68,6 +68,21 @@ def check_trace(tr, outcome, apps=('vapp', 'wapp', 'xapp')):
     return problems
 
 
+def saved_problems(tr):
+    """`evolved` means everything was saved: every evolution announced as applied is recorded"""
+    if not any(e[0] == 'signal' and e[1] == 'evolved' for e in tr.events):
+        return []
+    recorded = set((e[0], e[1]) for e in evorig.bookkeeping()['evolutions'])
+    out = []
+    for e in tr.events:
+        if e[0] == 'signal' and e[1] == 'applied_evolution':
+            for label in e[2].get('evolutions', []):
+                if (e[2].get('app'), label) not in recorded:
+                    out.append('evolved was sent, but evolution %s.%s (announced as applied) is not recorded'
+                               % (e[2].get('app'), label))
+    return out
+
+
 def lock_value():
     from django_evolution import management
     return getattr(management, '_evolve_lock', None)
@@ -111,17 +126,26 @@ def run(ctx):
         from .. import dbrig
         import random
         dbrig.insert_rows(evorig.install_models(case['spec0']), random.Random(seed))
+        # every other case: an app that is not installed any more is purged in the same run (purging has no
+        # signals of its own, so its statements are outside the pairs by design)
+        purge = (tries % 2 == 0)
+        if purge:
+            from .c15 import add_stale
+            if add_stale(random.Random(seed), seed, case['spec0']) is None:
+                purge = False
+        ctx.count('upgrade_with_purge:%s' % purge)
         evocases.save_db('v0')
         evocases.install_v1(case)
         tr = evorig.Trace()
-        r = evorig.run_evolver(trace=tr)
+        r = evorig.run_evolver(trace=tr, purge=purge)
         if r[0] != 'ok':
+            ctx.count('upgrade_failed')
             continue
         done += 1
         n = len(tr.write_statements())
         rep0 = {'spec0': case['spec0'], 'mutations': case['muts'], 'seed': seed}
-        for p in check_trace(tr, 'ok'):
-            ctx.fail(None, 'upgrade: ' + p, dict(rep0, signals=tr.signals()))
+        for p in check_trace(tr, 'ok') + saved_problems(tr):
+            ctx.fail(None, 'upgrade%s: %s' % (' with purge' if purge else '', p), dict(rep0, purge=purge, signals=tr.signals()))
         ctx.case({'mutations': [sigs.model_mutation(m) for m in case['muts']], 'fault': None,
                   'signals': [s[0] for s in tr.signals()]}, nontrivial=True, sample_cap=3)
         for k in range(n):
@@ -130,13 +154,13 @@ def run(ctx):
             evocases.restore_db('v0')
             evocases.install_v1(case)
             trk = evorig.Trace(fail_at=k)
-            rk = evorig.run_evolver(trace=trk)
+            rk = evorig.run_evolver(trace=trk, purge=purge)
             sigs_k = [s[0] for s in trk.signals()]
             ctx.case({'mutations': [sigs.model_mutation(m) for m in case['muts']], 'fault': k, 'signals': sigs_k},
                      nontrivial=any(s.startswith(('applying', 'creating')) for s in sigs_k), sample_cap=6)
             ctx.count('fault_runs')
-            for p in check_trace(trk, rk[0]):
-                ctx.fail(None, 'fault at write #%d of %d: %s' % (k, n, p), dict(rep0, k=k, signals=trk.signals(),
+            for p in check_trace(trk, rk[0]) + saved_problems(trk):
+                ctx.fail(None, 'fault at write #%d of %d: %s' % (k, n, p), dict(rep0, k=k, purge=purge, signals=trk.signals(),
                                                                                failed_sql=trk.failed_sql))
             # no applied/created after the failing statement
             if rk[0] == 'error':
